@@ -186,3 +186,35 @@ CONCRETE["bounded:fir_source"] = {
              "the flushed filter re-used for a float64 signal and for the int64 signal again",
     "timeout_s": 5.0, "budget_quick": 60, "budget_thorough": 600,
 }
+
+
+# ================================================================== saturation of the 16-bit presets (cdef helpers, translated mechanically)
+# "The 16-bit presets saturate at the int16 limits instead of wrapping around": the scalar helpers every output sample of the ChickenSys
+# FIR / IIR presets goes through, translated from the .pyx text on every run (pyvc.source.translate_cdef_function states exactly what the
+# translation does).  Proved for EVERY real input: the value handed to the final <short> conversion is already inside the int16 range, so
+# the conversion never wraps, and out-of-range inputs land on the limit of their side.
+FIRFN = "pyxfn:smpl_extract/filters/fir.pyx:_c_bound_and_fix"
+IIRFN = "pyxfn:smpl_extract/filters/iir.pyx:_c_bound,_c_fix_int"
+
+
+@contract("lemma:fir_preset_saturates", props=["C19"], lemma_module=FIRFN, lemma_deps=[],
+          lemma_src="def sat(x):\n    return _c_bound_and_fix(x)\n")
+def _fir_sat(c):
+    c.param("x", "real")
+    c.use = {FIRFN + ":_c_bound_and_fix": "inline"}
+    c.ensures("-32768 <= result and result <= 32767", "inside-the-int16-range")
+    c.ensures("implies(x > 32767, result == 32767) and implies(x < -32768, result == -32768)", "out-of-range-inputs-land-on-the-limit-of-their-side")
+    c.ensures("implies(-32768 <= x and x <= 32767, to_real(result) - x <= to_real(1) / 2 and x - to_real(result) <= to_real(1) / 2)",
+              "in-range-inputs-are-rounded-to-the-nearest-integer-never-wrapped")
+    c.ensures("implies(x >= 0, result >= 0) and implies(x <= 0, result <= 0)", "the-sign-is-kept")
+
+
+@contract("lemma:iir_preset_saturates", props=["C19"], lemma_module=IIRFN, lemma_deps=[],
+          lemma_src="def sat(x):\n    return _c_fix_int(_c_bound(x))\n")
+def _iir_sat(c):
+    c.param("x", "real")
+    c.use = {IIRFN + ":_c_bound": "inline", IIRFN + ":_c_fix_int": "inline"}
+    c.ensures("-32767 <= result and result <= 32767", "inside-the-int16-range")
+    c.ensures("implies(x > 32767, result == 32767) and implies(x < -32767, result == -32767)", "out-of-range-inputs-land-on-the-limit-of-their-side")
+    c.ensures("implies(-32767 <= x and x <= 32767, absv(to_real(result) - x) < 1 and absv(to_real(result)) <= absv(x))", "in-range-inputs-are-cut-toward-zero-never-wrapped")
+    c.ensures("implies(x >= 0, result >= 0) and implies(x <= 0, result <= 0)", "the-sign-is-kept")
